@@ -33,7 +33,9 @@ import (
 
 	"github.com/zilliztech/milvus-cdc/core/api"
 	"github.com/zilliztech/milvus-cdc/core/config"
+	"github.com/zilliztech/milvus-cdc/core/model"
 	"github.com/zilliztech/milvus-cdc/core/pb"
+	"github.com/zilliztech/milvus-cdc/core/reader"
 	"github.com/zilliztech/milvus-cdc/core/util"
 	"github.com/zilliztech/milvus-cdc/core/writer"
 
@@ -726,6 +728,7 @@ func runStep(p *hx.Plan, idx int, st map[string]interface{}) hx.Event {
 	src := &source{kind: kind, members: c.Members, rid: rid, c: c}
 	var err error
 	ret := "na"
+	via := "driver"
 	var cands stampCands
 
 	if isEvent {
@@ -764,6 +767,15 @@ func runStep(p *hx.Plan, idx int, st map[string]interface{}) hx.Event {
 		evt.ReplicateInfo = &commonpb.ReplicateInfo{IsReplicate: true, MsgTimestamp: ets}
 		src.info = proto.Clone(info).(*pb.CollectionInfo)
 		src.part = proto.Clone(part).(*pb.PartitionInfo)
+		if kind == "EvCreateCollection" {
+			// the real reader emits this event: StartReadCollection on a real replicateChannelManager whose
+			// downstream catalog lacks the collection (sendCreateCollectionEvent); the server loop hands the
+			// event from GetEventChan() to the writer unchanged (server/cdc_impl.go startReplicateAPIEvent)
+			if re := createEventThroughReader(ctx, c, info); re != nil {
+				evt = re
+				via = "reader"
+			}
+		}
 		cands = stampCands{names: []string{"event"}, vals: []uint64{ets}}
 		if fail {
 			h.FailKinds[strings.TrimPrefix(kind, "Ev")] = true
@@ -824,8 +836,30 @@ func runStep(p *hx.Plan, idx int, st map[string]interface{}) hx.Event {
 	return hx.Event{
 		"m": hx.Event{"shape": shape, "kind": kind, "obj": obj, "members": members, "fail": fail,
 			"schema": hx.S(st, "schema"), "rid": rid},
-		"calls": calls, "err": err != nil, "ret": ret, "probes": probes,
+		"calls": calls, "err": err != nil, "ret": ret, "probes": probes, "via": via,
 	}
+}
+
+var readerSeq int
+
+func createEventThroughReader(ctx context.Context, c *content, info *pb.CollectionInfo) *api.ReplicateAPIEvent {
+	readerSeq++
+	mgr, err := reader.NewReplicateChannelManager(nil, nil, &wfake2.AbsentTarget{}, config.ReaderConfig{
+		MessageBufferSize: 4, TTInterval: 10000, Retry: config.RetrySettings{RetryTimes: 1, InitBackOff: 1, MaxBackOff: 1},
+		SourceChannelNum: 1, TargetChannelNum: 1, ReplicateID: fmt.Sprintf("c20-%d", readerSeq),
+	}, nil, nil, nil, "milvus")
+	if err != nil {
+		return nil
+	}
+	_ = mgr.StartReadCollection(util.GetCtxWithTaskID(ctx, c.Task), &model.DatabaseInfo{ID: 1, Name: c.DB}, info, nil, nil)
+	select {
+	case e := <-mgr.GetEventChan():
+		if e != nil && e.EventType == api.ReplicateCreateCollection && e.ReplicateInfo != nil {
+			return e
+		}
+	default:
+	}
+	return nil
 }
 
 func callKind(kind string) string {
